@@ -304,7 +304,7 @@ _N13_SET_COLLECT = re.compile(r"(?<![\w.])(\w+)(\s*\.into_iter\(\)\s*\.collect\(
 _N13_CLONED_COLLECT = re.compile(r"(?<![\w.])(\w+)(\s*\.iter\(\)\s*\.cloned\(\)\s*\.collect\(\))")
 _N13_FILTER_COUNT = re.compile(r"(?<![\w.])(\w+(?:\.\w+)*(?:\[[^\]\n]*\])?)(\s*\.iter\(\)\s*\.filter\()(?=\|)")
 _N13_TAIL_COUNT = re.compile(r"\)\s*\.count\(\)")
-_N13_FILTER_MAP = re.compile(r"(?<![\w.])(\w+(?:\.\w+)*)(\s*\.iter\(\)\s*\.filter_map\()(?=\|)")
+_N13_FILTER_MAP = re.compile(r"(?<![\w.])(\w+(?:\s*\.\s*\w+)*)(\s*\.iter\(\)\s*\.filter_map\()(?=\|)")
 _N13_FOLD = re.compile(r"(?<![\w.])(\w+\s*\.iter\(\))(\s*\.fold\()")
 _N13_TAIL_COLLECT = re.compile(r"\)\s*\.collect\(\)")
 _N13_TAIL_SUM = re.compile(r"\)\s*\.sum\(\)")
@@ -412,7 +412,9 @@ def norm_iter_chains(text, m, body_open, body_close):
         t = _N13_TAIL_COLLECT.match(m, c[3])
         if not t:
             continue
-        edits.append(Edit(mm.start(1), "", "verif_filter_map_collect(&", "norm:N13"))
+        # a closure over (key, value) pairs iterates a table, not a slice: its helper lives with the abstract map (A-procmap)
+        helper = "verif_table_filter_map_collect" if m[c[0] + 1 : c[1]].strip().startswith("(") else "verif_filter_map_collect"
+        edits.append(Edit(mm.start(1), "", helper + "(&", "norm:N13"))
         edits.append(Edit(mm.start(2), text[mm.start(2) : mm.end(2)], ", ", "norm:N13"))
         edits.append(Edit(t.start(), text[t.start() : t.end()], ")", "norm:N13"))
     for mm in _N13_FOLD.finditer(m, body_open, body_close):
@@ -870,6 +872,15 @@ def gen_fn(d, strip_paths, mode="verify", contract_text=None, vacuity=False):
         x = mm.group(1)
         edits.append(Edit(mm.start(1) - 1, "&" + x, "verif_ref_" + x, "norm:N16"))
         edits.append(Edit(o + 1, "", " let " + x + " = *verif_ref_" + x + ";", "norm:N16"))
+
+    # N17: a two-arm match whose first arm is guarded and whose second arm is `_ => return ..`:
+    #      `PAT if G => A, _ => RET,`  ->  `PAT => if G { A } else { RET }, _ => RET,`
+    # (Rust tries the guard only when PAT matches and falls through to `_` when it is false: the same RET runs.  This
+    # Verus forgets everything about a `&mut` place on the fall-through arm of a guarded match - §3.6.)
+    n17 = re.compile(r"(\b\w[\w:]*\((?:mut\s+)?\w+\))( if ([^\n]+?) => ([^\n]+?),)(\s*)_ => (return(?: [^\n,]+)?),(\s*)\}")
+    for mm in n17.finditer(m, body_open, body_close):
+        g_, a_, ret = text[mm.start(3) : mm.end(3)], text[mm.start(4) : mm.end(4)], text[mm.start(6) : mm.end(6)]
+        edits.append(Edit(mm.start(2), text[mm.start(2) : mm.end(2)], " => if " + g_ + " { " + a_ + " } else { " + ret + " },", "norm:N17"))
 
     edits.extend(norm_macros(text, m, strip_paths))
     edits.extend(norm_closure_underscore(text, m))
